@@ -2,8 +2,9 @@
     Only statements here; proofs live in Proofs/Schedule.v. *)
 From Coq Require Import ZArith List.
 From AGH Require Import Base.Run Model.Schedule Proofs.Schedule.
-From AGH Require Import Model.ScheduleText Proofs.ScheduleText.
+From AGH Require Import Model.ScheduleText Proofs.ScheduleText Proofs.DurationText.
 From AGH Require Import Model.BlockedSvcHttp Proofs.BlockedSvcHttp.
+From AGH Require Import Model.BlockedSvcClient Proofs.BlockedSvcClient.
 Local Open Scope Z_scope.
 
 (** For every zone (any offset function), instant and schedule: in effect
@@ -58,15 +59,67 @@ Print Assumptions C18_roundtrip_yaml.
     decimals.  The decoders take the texts in document order. *)
 Theorem C18_roundtrip_yaml_text : forall w,
   weekly_ok w -> unmarshal_yaml_text (marshal_yaml_text w) = inr w.
-Proof. exact yaml_text_roundtrip. Qed.
+Proof. exact yaml_text_roundtrip_structural. Qed.
 Print Assumptions C18_roundtrip_yaml_text.
 
 Theorem C18_roundtrip_json_text : forall w,
   weekly_ok w -> unmarshal_json_text (marshal_json_text w) = inr w.
-Proof. exact json_text_roundtrip. Qed.
+Proof. exact json_text_roundtrip_structural. Qed.
 Print Assumptions C18_roundtrip_json_text.
 
-(** The finite domain underneath: the 1441 whole minutes of a day. *)
+(** Underneath: print-then-parse is the identity for EVERY duration, by
+    structural reasoning on the printers (hours / minutes / seconds /
+    fraction, trimming of trailing zeros, the "0s" / "0m0s" cut), not by
+    enumeration: Go's [time.Duration.String] and [timeutil.Duration.String]
+    read back by [time.ParseDuration] on all of int64, -2^63 included; the
+    JSON millisecond number text on |d| < 10^26 ns. *)
+Theorem C18_duration_text_roundtrip : forall d,
+  - two63 <= d < two63 -> parse_duration (duration_string d) = inr d.
+Proof. exact duration_string_roundtrip. Qed.
+Print Assumptions C18_duration_text_roundtrip.
+
+Theorem C18_timeutil_text_roundtrip : forall d,
+  - two63 <= d < two63 -> parse_duration (tu_string d) = inr d.
+Proof. exact tu_string_roundtrip. Qed.
+Print Assumptions C18_timeutil_text_roundtrip.
+
+Theorem C18_ms_text_roundtrip : forall d,
+  Z.abs d < 10 ^ 26 -> parse_ms_text (print_ms_text d) = Some d.
+Proof. exact ms_text_roundtrip. Qed.
+Print Assumptions C18_ms_text_roundtrip.
+
+(** Hence the text layer of a document is transparent for every week of
+    int64 bounds, validated or not: what is written reads back as the same
+    bounds, and the decoder's verdict is the validation of those bounds. *)
+Theorem C18_yaml_text_transparent : forall w,
+  Forall int64_range w ->
+  unmarshal_yaml_text (marshal_yaml_text w)
+  = match unmarshal_ranges w with
+    | inl (i, e) => inl (TRange i e)
+    | inr w => inr w
+    end.
+Proof. exact yaml_text_transparent. Qed.
+Print Assumptions C18_yaml_text_transparent.
+
+Theorem C18_json_text_transparent : forall w,
+  Forall ms_range w ->
+  unmarshal_json_text (marshal_json_text w)
+  = match unmarshal_ranges w with
+    | inl (i, e) => inl (TRange i e)
+    | inr w => inr w
+    end.
+Proof. exact json_text_transparent. Qed.
+Print Assumptions C18_json_text_transparent.
+
+Example C18_text_transparent_example :
+  Forall int64_range ex_odd_week /\
+  unmarshal_yaml_text (marshal_yaml_text ex_odd_week) = inl (TRange 1 EEndNotMin).
+Proof. exact ex_odd_week_transparent. Qed.
+Print Assumptions C18_text_transparent_example.
+
+(** Cross-check by the other route: the 1441 whole minutes of a day (the
+    whole domain of validated bounds) by a computed [forallb]; the two routes
+    agree. *)
 Theorem C18_minute_text_yaml : forall k,
   0 <= k <= 1440 -> parse_duration (tu_string (k * ns_min)) = inr (k * ns_min).
 Proof. exact yaml_minute_roundtrip. Qed.
@@ -76,6 +129,11 @@ Theorem C18_minute_text_json : forall k,
   0 <= k <= 1440 -> parse_ms_text (print_ms_text (k * ns_min)) = Some (k * ns_min).
 Proof. exact json_minute_roundtrip. Qed.
 Print Assumptions C18_minute_text_json.
+
+Theorem C18_minute_routes_agree : forall k,
+  0 <= k <= 1440 -> yaml_minute_ok k = true /\ json_minute_ok k = true.
+Proof. exact minute_routes_agree. Qed.
+Print Assumptions C18_minute_routes_agree.
 
 (** Whatever the texts and their order in the document, an accepted document
     is a validated schedule. *)
@@ -301,3 +359,115 @@ Example C18_http_history_example :
   week_const (repeat full_day 7) = Some true /\ week_const (sc_days empty_weekly) = Some false.
 Proof. exact ex_history. Qed.
 Print Assumptions C18_http_history_example.
+
+(** * The request side: the schedule is consulted for the global and for the
+    client's own blocked services on every request
+    (blocked.go ApplyBlockedServices, filter.go ApplyAdditionalFiltering).
+
+    For every tz database [zoff], service table, global list + schedule [g],
+    client the lookup found ([None]: none; with or without own blocked
+    services, own list + own schedule in its own zone) and the two instants
+    at which the code reads the clock: the services blocked for the request
+    are the client's own ids outside the client's pause when the client uses
+    its own (the global rules are REPLACED), else the global ids outside the
+    global pause; only ids of the service table count. *)
+Theorem C18_request_services : forall zoff known g c t1 t2,
+  request_services zoff known g c t1 t2 =
+  match own_list c with
+  | Some b => if paused zoff (bs_sched b) t2 then nil else filter (id_known known) (bs_ids b)
+  | None => if paused zoff (bs_sched g) t1 then nil else filter (id_known known) (bs_ids g)
+  end.
+Proof. exact request_services_spec. Qed.
+Print Assumptions C18_request_services.
+
+(** "Paused" is the wall-clock reading of C18_wall_clock in the zone the
+    governing schedule is stored with. *)
+Theorem C18_request_services_wall_clock : forall zoff known g c t1 t2,
+  let b := effective g c in
+  let t := effective_instant c t1 t2 in
+  (in_pause zoff (bs_sched b) t -> request_services zoff known g c t1 t2 = nil) /\
+  (~ in_pause zoff (bs_sched b) t ->
+   request_services zoff known g c t1 t2 = filter (id_known known) (bs_ids b)).
+Proof. exact request_services_wall_clock. Qed.
+Print Assumptions C18_request_services_wall_clock.
+
+Theorem C18_request_blocks_iff : forall zoff known g c t name,
+  In name (request_services zoff known g c t t) <->
+  In name (bs_ids (effective g c)) /\ id_known known name = true /\
+  ~ in_pause zoff (bs_sched (effective g c)) t.
+Proof. exact request_blocks_iff. Qed.
+Print Assumptions C18_request_blocks_iff.
+
+(** Whatever the caller left in [setts.BlockedServices] and
+    [setts.ServicesRules]. *)
+Theorem C18_apply_additional_filtering : forall zoff known g c t1 t2 se,
+  se_rules (apply_additional_filtering zoff known g c t1 t2 se) =
+  match (match own_list c with Some b => Some b | None => se_bsvc se end) with
+  | Some b => if paused zoff (bs_sched b) t2 then nil else filter (id_known known) (bs_ids b)
+  | None => if paused zoff (bs_sched g) t1 then nil else filter (id_known known) (bs_ids g)
+  end.
+Proof. exact apply_additional_filtering_spec. Qed.
+Print Assumptions C18_apply_additional_filtering.
+
+(** A client with own blocked services: the global list, its schedule and
+    any history of requests to the global endpoints are irrelevant; in the
+    client's pause nothing is blocked. *)
+Theorem C18_own_client_ignores_global : forall zoff known g g' c b t1 t1' t2,
+  own_list c = Some b ->
+  request_services zoff known g c t1 t2 = request_services zoff known g' c t1' t2.
+Proof. exact own_client_ignores_global. Qed.
+Print Assumptions C18_own_client_ignores_global.
+
+Theorem C18_own_client_paused_blocks_nothing : forall zoff known g c b t1 t2,
+  own_list c = Some b -> in_pause zoff (bs_sched b) t2 ->
+  request_services zoff known g c t1 t2 = nil.
+Proof. exact own_client_paused_blocks_nothing. Qed.
+Print Assumptions C18_own_client_paused_blocks_nothing.
+
+Theorem C18_own_client_ignores_history : forall zoff known s ops c b t1 t2,
+  own_list c = Some b ->
+  request_services zoff known (run known s ops) c t1 t2 = request_services zoff known s c t1 t2.
+Proof. exact own_client_ignores_history. Qed.
+Print Assumptions C18_own_client_ignores_history.
+
+(** Requests without own blocked services after a history of HTTP requests:
+    the pause is the one of the last accepted update; a legacy set changes
+    the list, never the pause. *)
+Theorem C18_request_after_last_update : forall zoff known s ops1 o ops2 sc c t1 t2,
+  accepted_update known o sc -> no_accepted_update known ops2 -> own_list c = None ->
+  request_services zoff known (run known s (ops1 ++ o :: ops2)) c t1 t2 =
+  if paused zoff sc t1 then nil
+  else filter (id_known known) (bs_ids (run known s (ops1 ++ o :: ops2))).
+Proof. exact request_after_last_update. Qed.
+Print Assumptions C18_request_after_last_update.
+
+Theorem C18_request_after_legacy_set : forall zoff known ids s c t1 t2,
+  own_list c = None ->
+  request_services zoff known (snd (step known (OSet ids) s)) c t1 t2 =
+  if paused zoff (bs_sched s) t1 then nil else filter (id_known known) ids.
+Proof. exact request_after_legacy_set. Qed.
+Print Assumptions C18_request_after_legacy_set.
+
+(** Non-vacuity: a not-paused global list [a, x, b] (x outside the table)
+    and a client pausing 09:00-17:00 at +05:30 with own list [b]; and the
+    variant of seeded change C18-C (reset moved inside the not-paused branch)
+    keeps global rules for the paused client. *)
+Example C18_request_example :
+  request_services ex_zoff ex_known ex_global None (4 * ns_hour) (4 * ns_hour)
+    = cons (cons 97%N nil) (cons (cons 98%N nil) nil) /\
+  request_services ex_zoff ex_known ex_global (Some ex_client) (4 * ns_hour) (4 * ns_hour) = nil /\
+  request_services ex_zoff ex_known ex_global (Some ex_client) (12 * ns_hour) (12 * ns_hour)
+    = cons (cons 98%N nil) nil /\
+  own_list (Some ex_client) = Some (cl_bsvc ex_client) /\
+  in_pause ex_zoff (bs_sched (cl_bsvc ex_client)) (4 * ns_hour) /\
+  ~ in_pause ex_zoff (bs_sched (cl_bsvc ex_client)) (12 * ns_hour).
+Proof. exact ex_requests. Qed.
+Print Assumptions C18_request_example.
+
+Theorem C18_reset_inside_branch_refuted :
+  exists zoff known g c t,
+    in_pause zoff (bs_sched (effective g (Some c))) t /\
+    se_rules (apply_additional_filtering_c18c zoff known g (Some c) t t fresh_settings) <> nil /\
+    request_services zoff known g (Some c) t t = nil.
+Proof. exact reset_inside_branch_refuted. Qed.
+Print Assumptions C18_reset_inside_branch_refuted.
